@@ -13,15 +13,23 @@ use rand_chacha::ChaCha8Rng;
 // (next_u32: one word; next_u64: two words, low first; fill_bytes: one word per started 4-byte chunk).
 
 pub const NW: usize = 16;
-pub static mut WORDS: [u32; NW] = [0; NW];
-pub static mut WPOS: usize = 0;
+
+/// All mutable harness state lives in structs with a distinctive non-zero tag: Kani 0.68 merges a
+/// zero-initialised `static mut` scalar with other all-zero constant allocations (observed: writing such a
+/// static changed `Vec::new()`'s capacity constant and produced spurious `__rust_dealloc` failures).
+pub struct RngWords {
+    pub tag: u64,
+    pub pos: usize,
+    pub words: [u32; NW],
+}
+pub static mut RNGW: RngWords = RngWords { tag: 0x524e_4757_4f52_4453, pos: 0, words: [0; NW] };
 
 fn take_word() -> u32 {
     unsafe {
-        let i = WPOS;
-        WPOS = i + 1;
+        let i = RNGW.pos;
+        RNGW.pos = i + 1;
         if i < NW {
-            WORDS[i]
+            RNGW.words[i]
         } else {
             // beyond the pre-drawn prefix: still arbitrary (sound), but not replayable natively
             kani::any()
@@ -55,8 +63,8 @@ pub fn rng_any_fill(_: &mut ChaCha8Rng, dest: &mut [u8]) {
 pub fn fresh_rng() -> ChaCha8Rng {
     let w: [u32; NW] = kani::any();
     unsafe {
-        WORDS = w;
-        WPOS = 0;
+        RNGW.words = w;
+        RNGW.pos = 0;
         // never read: every RngCore method is stubbed in the harnesses that use it
         std::mem::zeroed()
     }
